@@ -118,3 +118,145 @@ def cases(tier, seed):
         yield {"label": f"swap {bits}", "bits": bits, "make": "make_swap"}
     for endian in ENDIANS:
         yield {"label": f"pack-bitlength {endian}", "endian": endian, "make": "make_packlen"}
+
+
+# ------------------------------------------------------------------------------------------ hexdump
+ESC = 0x1B
+
+
+def ref_hexdump(data, offset=0, prefix=""):
+    """Independent reference: list of code units (int-likes) of the uncoloured dump."""
+    out = []
+    n = len(data)
+    for li, i in enumerate(range(0, n, 16)):
+        if li:
+            out.append(10)
+        line = [ord(c) for c in prefix] + [ord(c) for c in "%08x" % (offset + i)] + [32, 32]
+        chars = []
+        for j in range(16):
+            if i + j < n:
+                b = data[i + j]
+                for nib in ((b >> 4) & 15, b & 15):
+                    line.append(R.Ite(nib < 10, nib + 48, nib + 87))
+                chars.append(R.Ite(R.And(b >= 0x20, b <= 0x7E), b, 46))
+            else:
+                line += [32, 32]
+            line.append(32)
+            if j == 7:
+                line.append(32)
+        line += [32, 32] + chars
+        out += line
+    return out
+
+
+def strip_codes(units):
+    """Remove ANSI colour sequences (concrete ESC ... 'm'); data-derived units can never be ESC."""
+    out, skipping = [], False
+    for u in units:
+        if skipping:
+            if type(u) is int and u == ord("m"):
+                skipping = False
+            continue
+        if type(u) is int and u == ESC:
+            skipping = True
+            continue
+        out.append(u)
+    return out
+
+
+def _mixed(ctx, n, positions, fill):
+    sym = ctx.bytes("s", len(positions))
+    base = bytes((fill + 7 * i) & 0xFF for i in range(n))
+    if ctx.symbolic:
+        items = list(base)
+        for k, p in enumerate(positions):
+            items[p] = sym.items[k]
+        return rt.SBytes(items)
+    b = bytearray(base)
+    for k, p in enumerate(positions):
+        b[p] = sym[k]
+    return bytes(b)
+
+
+def make_hexdump(case):
+    n, positions, offset, prefix = case["n"], case["positions"], case["offset"], case["prefix"]
+    runs_opts = [0, 1, 2, 15, 16, 17]
+
+    def run(ctx):
+        from dissect.cstruct import utils
+        data = _mixed(ctx, n, positions, case["fill"])
+        plain = utils.hexdump(data, offset=offset, prefix=prefix, output="string")
+        exp = ref_hexdump(data, offset, prefix)
+        got = R.units_of(plain) if plain != "" else []
+        ctx.observe("plain", plain)
+        ctx.check("uncoloured dump: every byte once, in order, sixteen per line, running offsets",
+                  len(got) == len(exp) and R.And(*[a == b for a, b in zip(got, exp)]), f"{len(got)} vs {len(exp)}")
+        if case["palette"]:
+            runs = [runs_opts[ctx.choose(f"run{i}", len(runs_opts))] for i in range(3)]
+            colours = [utils.COLOR_BG_RED, utils.COLOR_BG_GREEN, utils.COLOR_BG_BLUE]
+            pal = [(r, c) for r, c in zip(runs, colours)]
+            ctx.observe("palette", runs)
+            try:
+                col = utils.hexdump(data, palette=list(pal), offset=offset, prefix=prefix, output="string")
+            except Exception as e:  # noqa: BLE001
+                ctx.check("hexdump with a palette works", False, H.classify(e) + " runs=" + str(runs))
+                return
+            stripped = strip_codes(R.units_of(col) if col != "" else [])
+            ctx.check("a colour palette changes nothing but the inserted colour codes",
+                      len(stripped) == len(exp) and R.And(*[a == b for a, b in zip(stripped, exp)]), f"runs={runs}")
+    return run
+
+
+DUMP_DEFS = [
+    ("struct test { uint8 a; uint32 b; char c[3]; uint16 d[2]; };", 12),
+    ("struct inner { uint8 x; int16 y; }; enum E : uint8 { A = 1 }; struct test { inner s; E e; uint8 *p; wchar w[2]; };", 16),
+    ("struct test { uint16 n:4; uint16 m:12; uint8 k; char s[]; uint8 t; };", 8),
+]
+
+
+def make_dumpstruct(case):
+    def run(ctx):
+        from dissect.cstruct import cstruct, utils
+        cs = cstruct()
+        cs.load(case["text"])
+        raw = bytes((case["fill"] + 11 * i) & 0x7F or 1 for i in range(case["n"] - 3)) + b"\x00\x05\x06"
+        obj = cs.test(raw)
+        import re as _re
+        strip = lambda t: _re.sub("\x1b\\[[0-9;]*m", "", t)  # noqa: E731  (colour codes are cosmetic)
+        out = strip(utils.dumpstruct(obj, output="string", color=False))
+        dumped = obj.dumps()
+        hd = utils.hexdump(dumped, output="string")
+        ctx.check("dumpstruct shows a hex dump of exactly the structure's bytes", out.startswith("\n" + hd + "\n"))
+        lines = out.split("\n\n", 2)[-1].split("\n")
+        names = [ln[2:].split(":")[0] for ln in lines if ln.startswith("- ")]
+        ctx.check("dumpstruct lists every field", names == [f._name for f in cs.test.__fields__], str(names))
+        col = utils.dumpstruct(obj, output="string", color=True, offset=case["fill"])
+        stripped = strip(col)
+        plain = strip(utils.dumpstruct(obj, output="string", color=False, offset=case["fill"]))
+        ctx.check("colour changes nothing but the colour codes", stripped == plain)
+        # parse form: dumpstruct(type, data)
+        out2 = strip(utils.dumpstruct(cs.test, raw, output="string", color=False))
+        ctx.check("dumpstruct(type, data) dumps the given bytes", out2.startswith("\n" + utils.hexdump(raw, output="string") + "\n"))
+    return run
+
+
+_pack_cases = cases
+
+
+def cases(tier, seed):  # noqa: F811
+    yield from _pack_cases(tier, seed)
+    lengths = [0, 1, 2, 7, 8, 9, 15, 16, 17, 31, 32, 33, 40] if tier == "quick" else list(range(0, 41))
+    for n in lengths:
+        posets = [[]] if n == 0 else [[0], [n - 1], sorted({0, n // 2, n - 1})]
+        if n > 17:
+            posets.append([15, 16, 17])
+        for k, positions in enumerate(posets):
+            for palette in (False, True):
+                if palette and len(positions) > (1 if tier == "quick" else 2):
+                    continue
+                yield {"label": f"hexdump n={n} sym@{positions} palette={palette}", "n": n, "positions": positions,
+                       "offset": [0, 0x1FF0, 16][k % 3], "prefix": ["", "> "][k % 2], "fill": 0x20 + 13 * n, "palette": palette,
+                       "make": "make_hexdump"}
+    for text, n in DUMP_DEFS:
+        for fill in (1, 0x41):
+            yield {"label": f"dumpstruct {text[:30]}", "text": text, "n": n, "fill": fill, "make": "make_dumpstruct"}
